@@ -85,8 +85,10 @@ def step_block(ctx, dev) -> None:
     ctx.rep.check(ok_order and not noisy, rule, cb + "/A-then-D", "every aspirate is immediately followed by its dispense",
                   "the dispense does not immediately follow the aspirate of the same step" + (f" (`{stmt_key(fv.cfg.nodes[noisy[0]].ast)[:50]}` in between)" if noisy else ""), where=w)
     # the dispense happens whenever the aspirate happened: same controlling conditions
-    ca = set(fv.controlling(t.A.node, within=zbody, skip_raising=True))
-    cd = set(fv.controlling(t.D.node, within=zbody, skip_raising=True))
+    from ..defuse import key as _key
+
+    ca = {(_key(r), pol) for r, pol, br in fv.atoms_at(t.A.node, within=zbody, skip_raising=True)}
+    cd = {(_key(r), pol) for r, pol, br in fv.atoms_at(t.D.node, within=zbody, skip_raising=True)}
     ctx.rep.check(ca == cd, rule, cb + "/paired", "aspirate and dispense are executed under the same conditions",
                   "aspirate and dispense of a step are executed under different conditions: a record pair can be torn", where=w)
     # kwargs: forwarded by both, never modified
@@ -111,12 +113,11 @@ def step_block(ctx, dev) -> None:
                   f"`{stmt_key(mutated[0])[:60] if mutated else ''}` modifies the pass-through keyword arguments inside transfer: later records (or the dispense of a pair) see different values", where=f.where(mutated[0]) if mutated else w)
     # emission filter: only v > 0
     v = fv.res.resolve((fv.bind_args(t.A) or {})["volumes"], t.A.node)
-    ok_f = True
-    detail = ""
-    tests = fv.controlling(t.A.node, within=zbody, skip_raising=True)
+    compounds = fv.compound_conditions_at(t.A.node, within=zbody, skip_raising=True)
+    ok_f = not compounds
+    detail = show(compounds[0][0])[:60] if compounds else ""
     n_v = 0
-    for d, pol in tests:
-        r = fv.res.resolve(fv.cfg.nodes[d].ast, d)
+    for r, pol, br in fv.atoms_at(t.A.node, within=zbody, skip_raising=True):
         cm = to_cmp(r, pol)
         if cm is not None and cm == Cmp(Poly.symbol(v), ">"):
             n_v += 1
@@ -125,7 +126,7 @@ def step_block(ctx, dev) -> None:
         if isinstance(r, ast.Compare) and any(call_fname(x) == "len" for x in [r.left] + r.comparators):
             continue
         ok_f = False
-        detail = stmt_key(fv.cfg.nodes[d].ast)
+        detail = ("" if pol else "not ") + show(r)[:60]
     ctx.rep.check(ok_f and n_v == 1, rule, cb + "/filter", "a step is skipped only when its volume is not > 0",
                   f"steps are filtered by `{detail}`" if detail else "steps are not filtered by exactly `v > 0`", where=w)
 
@@ -136,13 +137,20 @@ def tip_action(ctx, dev) -> None:
     fv, f = t.fv, t.f
     cb = f"{dev.name}.transfer"
     zbody = fv.cfg.loop_body[t.Z]
-    base_ctrl = set(fv.controlling(t.D.node, within=zbody))
+    from ..defuse import key as _key
+
+    base_atoms = {(_key(r), pol) for r, pol, br in fv.atoms_at(t.D.node, within=zbody)}
     ws = "wash_scheme"
 
-    def atom(tst) -> Optional[str]:
-        r = tst
-        if isinstance(r, ast.Compare) and len(r.ops) == 1 and isinstance(r.ops[0], ast.Eq) and is_name(r.left, ws) and isinstance(r.comparators[0], ast.Constant):
+    def is_ws(x) -> bool:
+        # the deprecated `wash_scheme is None` block re-binds the name on one path: §phi(wash_scheme, <constant>)
+        return is_name(x, ws) or (is_sym(x, "phi") and any(is_name(a, ws) for a in x.args))
+
+    def atom(r) -> Optional[str]:
+        if isinstance(r, ast.Compare) and len(r.ops) == 1 and isinstance(r.ops[0], ast.Eq) and is_ws(r.left) and isinstance(r.comparators[0], ast.Constant):
             return r.comparators[0].value
+        if isinstance(r, ast.Compare) and len(r.ops) == 1 and isinstance(r.ops[0], ast.Eq) and is_ws(r.comparators[0]) and isinstance(r.left, ast.Constant):
+            return r.left.value
         return None
 
     actions = []
@@ -152,15 +160,16 @@ def tip_action(ctx, dev) -> None:
         kinds = {e.arg for e in ctx.E.node_effects(fv, n) if e.kind == "EMIT"}
         if not kinds:
             continue
-        extra = [c for c in fv.controlling(n.id, within=zbody) if c not in base_ctrl]
         conds = {}
-        unknown = False
-        for d, pol in extra:
-            a = atom(fv.cfg.nodes[d].ast)
-            if a is None:
+        unknown = bool([c for c in fv.compound_conditions_at(n.id, within=zbody) if True and (_key(c[0]), c[1]) not in base_atoms and not any(b[2] == c[2] for b in fv.compound_conditions_at(t.D.node, within=zbody))])
+        for r, pol, br in fv.atoms_at(n.id, within=zbody):
+            if (_key(r), pol) in base_atoms:
+                continue
+            a_ = atom(r)
+            if a_ is None:
                 unknown = True
             else:
-                conds[a] = pol
+                conds[a_] = pol
         actions.append((n, kinds, conds, unknown))
     want = {"F": {"flush": True}, "W": {"flush": False, "reuse": False}}
     seen = set()
